@@ -258,6 +258,13 @@ def aba_triples(alpha, starts, seed):
                     for x in alpha:
                         if x[0] != a[0]:
                             out.append((s, (a, x, b)))
+    # ... and three different requests of ONE category in a row (a stale leftover of the first may meet the third)
+    for s in starts:
+        for a in alpha:
+            for b in alpha:
+                for c in alpha:
+                    if a[0] == b[0] == c[0] and a[1] != b[1] and b[1] != c[1]:
+                        out.append((s, (a, b, c)))
     random.Random(seed).shuffle(out)
     return out
 
@@ -359,7 +366,7 @@ def main():
                      'set_transit_compartments', 'add_lag_time', 'remove_lag_time', 'has_* detectors',
                      'get_number_of_peripheral_compartments', 'get_number_of_transit_compartments', 'get_lag_times']
     run.bounds = dict(start_models=starts, alphabet=[f'{c}={v}' for c, v in alpha],
-                      sequences='all of length 1; length 2; triples (c=v1, other category, c=v2) from an IV and an oral start model (quick: seeded order within budget; thorough: complete for all start models + '
+                      sequences='all of length 1; length 2; triples (c=v1, other category, c=v2) and (c=v1, c=v2, c=v3) from an IV and an oral start model (quick: seeded order within budget; thorough: complete for all start models + '
                                 'length 3 from the first start model in seeded order)',
                       outside='metabolite/effect/TMDD compartments, the MFL text parser (C18)')
     run.assumptions = ['the detector / other-category clause is a finite concrete comparison, not a solver verdict',
